@@ -24,7 +24,7 @@ run)
     case "$id" in
         C19) scenarios="aco" ;;
         C05|C06) scenarios="ga" ;;
-        C08) scenarios="ga exp" ;;
+        C08|C16) scenarios="ga exp" ;;
         C15) scenarios="exp" ;;
         *) exit 0 ;;
     esac
